@@ -1,3 +1,4 @@
+import Clover.Generated.Facts
 import Clover.Proofs.UnmarshalRename
 import Clover.Proofs.KindInvariance
 import Clover.Model.GoVal
@@ -193,3 +194,42 @@ example : DotFree [([0x61], .obj [([0x62], .null)]), ([0x63], .bool true)] := by
   simp [DotFree, DotFreeKeys, SortedKeys, dot, OC.lexLt]
 
 end CV.Props.C18
+
+-- SOURCE-TEXT-BEGIN (generated by tools/mk_source_theorems.py; do not edit by hand)
+namespace CV.Props.C18
+
+/-- (facts, regenerated from the source on every run) **The source text the model transcribes is the text of the
+    current source**: the bodies (comments and layout removed) of the 26 functions the model behind C18 was written from and
+    validated against.  Any edit of one of them breaks this theorem at build time; the check then searches with the
+    property's own oracles for a failing input, and reports `no-failing-input-found` if it finds none: the model then
+    has to be re-validated against the new text (and this block regenerated). -/
+theorem source_decision_logic : CV.Facts.logicC18 = [
+  "document..NewDocumentOf: { doc, isDoc := o.(*Document) if isDoc { return doc } return newDocumentOf(o) }", 
+  "document..lookupField: { fields := strings.Split(name, \".\") var exists bool var f interface{} currMap := fieldMap for i, field := range fields { f, exists = currMap[field] m, isMap := f.(map[string]interface{}) if force { if (!exists || !isMap) && i < len(fields)-1 { m = make(map[string]interface{}) currMap[field] = m f = m } } else if !exists { return nil, nil, \"\" } if i < len(fields)-1 { currMap = m } } return currMap, f, fields[len(fields)-1] }", 
+  "document..newDocumentOf: { normalized, _ := internal.Normalize(o) fields, _ := normalized.(map[string]interface{}) if fields == nil { return nil } return &Document{ fields: fields, } }", 
+  "document.Document.AsMap: { return util.CopyMap(doc.fields) }", 
+  "document.Document.Copy: { return &Document{ fields: util.CopyMap(doc.fields), } }", 
+  "document.Document.Fields: { return util.MapKeys(doc.fields, true, includeSubFields) }", 
+  "document.Document.Get: { _, v, _ := lookupField(name, doc.fields, false) return v }", 
+  "document.Document.Has: { fieldMap, _, _ := lookupField(name, doc.fields, false) return fieldMap != nil }", 
+  "document.Document.Set: { normalizedValue, err := internal.Normalize(value) if err == nil { m, _, fieldName := lookupField(name, doc.fields, true) m[fieldName] = normalizedValue } }", 
+  "document.Document.SetAll: { for updateField, updateValue := range values { doc.Set(updateField, updateValue) } }", 
+  "document.Document.ToMap: { return util.CopyMap(doc.fields) }", 
+  "document.Document.Unmarshal: { return internal.Convert(doc.fields, v) }", 
+  "internal..Convert: { renamed := renameMapKeys(m, v) b, err := json.Marshal(renamed) if err != nil { return err } return json.Unmarshal(b, v) }", 
+  "internal..Normalize: { if value == nil { return nil, nil } rValue, rType := getElemValueAndType(value) if rType.Kind() == reflect.Ptr { return nil, nil } if _, isTime := rValue.Interface().(time.Time); isTime { return rValue.Interface(), nil } switch value := value.(type) { case encoding.BinaryMarshaler: return value, nil } if _, isValue := rValue.Interface().(Value); isValue { return rValue.Interface(), nil } switch rType.Kind() { case reflect.Uint, reflect.Uint8, reflect.Uint16, reflect.Uint32, reflect.Uint64: return rValue.Uint(), nil case reflect.Int, reflect.Int8, reflect.Int16, reflect.Int32, reflect.Int64: return rValue.Int(), nil case reflect.Float32, reflect.Float64: return rValue.Float(), nil case reflect.Struct: return normalizeStruct(rValue) case reflect.Map: return normalizeMap(rValue) case reflect.String: return rValue.String(), nil case reflect.Bool: return rValue.Bool(), nil case reflect.Slice, reflect.Array: return normalizeSlice(rValue) } return nil, fmt.Errorf(\"invalid dtype %s\", rType.Name()) }", 
+  "internal..createRenameMap: { renameMap := make(map[string]string) for i := 0; i < rv.NumField(); i++ { fieldType := rv.Type().Field(i) renameTo := fieldType.Name renameFrom := fieldType.Name jsonTagStr, found := fieldType.Tag.Lookup(\"json\") if found { name, _ := processStructTag(jsonTagStr) if name != \"\" { renameTo = name } } tagStr, found := fieldType.Tag.Lookup(\"clover\") if found { name, _ := processStructTag(tagStr) if name != \"\" { renameFrom = name } } if renameFrom != renameTo { renameMap[renameFrom] = renameTo } } return renameMap }", 
+  "internal..getElemType: { for rt.Kind() == reflect.Ptr { rt = rt.Elem() } return rt }", 
+  "internal..getElemValueAndType: { rv := reflect.ValueOf(v) rt := reflect.TypeOf(v) for rt.Kind() == reflect.Ptr && !rv.IsNil() { rt = rt.Elem() rv = rv.Elem() } return rv, rt }", 
+  "internal..isEmptyValue: { switch v.Kind() { case reflect.Array, reflect.Map, reflect.Slice, reflect.String: return v.Len() == 0 case reflect.Bool: return !v.Bool() case reflect.Int, reflect.Int8, reflect.Int16, reflect.Int32, reflect.Int64: return v.Int() == 0 case reflect.Uint, reflect.Uint8, reflect.Uint16, reflect.Uint32, reflect.Uint64, reflect.Uintptr: return v.Uint() == 0 case reflect.Float32, reflect.Float64: return v.Float() == 0 case reflect.Interface, reflect.Ptr: return v.IsNil() } return false }", 
+  "internal..normalizeMap: { if mapValue.Type().Key().Kind() != reflect.String { return nil, fmt.Errorf(\"map key type must be a string\") } m := make(map[string]interface{}) for _, key := range mapValue.MapKeys() { value := mapValue.MapIndex(key) normalized, err := Normalize(value.Interface()) if err != nil { return nil, err } m[key.String()] = normalized } return m, nil }", 
+  "internal..normalizeSlice: { if sliceValue.Type().Elem().Kind() == reflect.Uint8 { return sliceValue.Interface(), nil } s := make([]interface{}, 0) for i := 0; i < sliceValue.Len(); i++ { v, err := Normalize(sliceValue.Index(i).Interface()) if err != nil { return nil, err } s = append(s, v) } return s, nil }", 
+  "internal..normalizeStruct: { m := make(map[string]interface{}) for i := 0; i < structValue.NumField(); i++ { fieldType := structValue.Type().Field(i) fieldValue := structValue.Field(i) if fieldType.PkgPath == \"\" { fieldName := fieldType.Name cloverTag := fieldType.Tag.Get(\"clover\") name, omitempty := processStructTag(cloverTag) if name != \"\" { fieldName = name } if !omitempty || !isEmptyValue(fieldValue) { normalized, err := Normalize(structValue.Field(i).Interface()) if err != nil { return nil, err } if !fieldType.Anonymous { m[fieldName] = normalized } else { if normalizedMap, ok := normalized.(map[string]interface{}); ok { for k, v := range normalizedMap { m[k] = v } } else { m[fieldName] = normalized } } } } } return m, nil }", 
+  "internal..processStructTag: { tags := strings.Split(tagStr, \",\") name := tags[0] omitempty := len(tags) > 1 && tags[1] == \"omitempty\" return name, omitempty }", 
+  "internal..rename: { rv := reflect.ValueOf(v) if rv.Type().Kind() != reflect.Struct { return nil } renameMap := createRenameMap(rv) m := make(map[string]interface{}) for key, value := range fields { renamedFieldName := renameMap[key] if renamedFieldName != \"\" { m[renamedFieldName] = value } else { m[key] = value } } return m }", 
+  "internal..renameMapKeys: { rv, rt := getElemValueAndType(v) if rt.Kind() != reflect.Struct { return m } renamed := rename(m, rv.Interface()) for i := 0; i < rv.NumField(); i++ { sf := rv.Type().Field(i) key := sf.Name if jsonTagStr, found := sf.Tag.Lookup(\"json\"); found { if name, _ := processStructTag(jsonTagStr); name != \"\" { key = name } } fv := renamed[key] ft := getElemType(sf.Type) fMap, isMap := fv.(map[string]interface{}) if isMap && ft.Kind() == reflect.Struct { converted := renameMapKeys(fMap, reflect.New(ft).Interface()) renamed[key] = converted } } return renamed }", 
+  "util..CopyMap: { mapCopy := make(map[string]interface{}) for k, v := range m { mapValue, ok := v.(map[string]interface{}) if ok { mapCopy[k] = CopyMap(mapValue) } else { mapCopy[k] = v } } return mapCopy }", 
+  "util..MapKeys: { keys := make([]string, 0, len(m)) for key, value := range m { added := false if includeSubKeys { subMap, isMap := value.(map[string]interface{}) if isMap { subFields := MapKeys(subMap, false, includeSubKeys) for _, subKey := range subFields { keys = append(keys, key+\".\"+subKey) } added = true } } if !added { keys = append(keys, key) } } if sorted { sort.Slice(keys, func(i, j int) bool { return keys[i] < keys[j] }) } return keys }"] := by rfl
+
+end CV.Props.C18
+-- SOURCE-TEXT-END
